@@ -43,12 +43,26 @@ pub fn corpus(r: &mut Rng, nonce: &mut u64) -> Vec<(String, Vec<u8>)> {
     };
     let w = WorkReq { nonce: next(), steps: 1, step_ms: 5, panic_at: 0, resp_bytes: 20, body: None, chunked: None };
     out.push(("get".to_string(), w.bytes()));
-    let e = echo_gen::gen_typed(r, next(), 0, 0);
+    // (small requests only: every prefix of a corpus request is replayed)
+    let tn = next();
+    let e = loop {
+        let e = echo_gen::gen_typed(r, tn, 0, 0);
+        if e.h1_bytes().len() < 3_000 {
+            break e;
+        }
+    };
     out.push(("json_put".to_string(), e.h1_bytes()));
     let n = r.usize_in(10, 120);
     let w = WorkReq { nonce: next(), steps: 0, step_ms: 0, panic_at: 0, resp_bytes: 0, body: Some(r.bytes(n)), chunked: Some(vec![r.usize_in(1, 30), r.usize_in(1, 30)]) };
     out.push(("chunked_put".to_string(), w.bytes()));
-    let e = echo_gen::gen_mp(r, next(), 0, 0);
+    // (a small one: every prefix of a corpus request is replayed)
+    let mp_nonce = next();
+    let e = loop {
+        let e = echo_gen::gen_mp(r, mp_nonce, 0, 0);
+        if e.h1_bytes().len() < 4_000 {
+            break e;
+        }
+    };
     out.push(("multipart".to_string(), e.h1_bytes()));
     let key = crate::sha1::base64(&r.bytes(16));
     let ws = build_request(
